@@ -199,7 +199,23 @@ pub fn interpret(gr: &Graph, follow: bool, max: u32) -> (Vec<usize>, Outcome) {
 }
 
 pub fn node_response(n: &Node) -> Script {
-    let mut head = format!("HTTP/1.1 {} X\r\n", n.status);
+    node_response_to(n, false)
+}
+
+/// the body a node's final response carries (nothing for 204/304)
+pub fn node_body(n: &Node) -> String {
+    if n.status == 204 || n.status == 304 {
+        String::new()
+    } else {
+        format!("node {}", n.url)
+    }
+}
+
+pub fn node_response_to(n: &Node, head_request: bool) -> Script {
+    // (no draw) some servers of a chain still speak HTTP/1.0: what one hop's server speaks says nothing
+    // about the next hop's
+    let old = n.url.len() % 3 == 1;
+    let mut head = format!("HTTP/1.{} {} X\r\n", if old { 0 } else { 1 }, n.status);
     // (no draw) connection options: `close`, and - legal, if odd - options that happen to be spelled like
     // other fields of the same head.  They concern the connection, not what the response says
     match n.url.len() % 5 {
@@ -211,8 +227,25 @@ pub fn node_response(n: &Node) -> Script {
     if let Some(l) = &n.location {
         head.push_str(&format!("Location: {}\r\n", l));
     }
-    let body = if n.status == 204 || n.status == 304 { String::new() } else { format!("node {}", n.url) };
+    let body = node_body(n);
     let followed = n.location.is_some() && FOLLOWED.contains(&n.status);
+    if head_request {
+        // the head a GET would get, and nothing after it
+        head.push_str(&format!("Content-Length: {}\r\n\r\n", body.len()));
+        let mut s = Script::default();
+        s.acts.push(Act::Send(head.into_bytes()));
+        s.acts.push(Act::Fin);
+        return s;
+    }
+    // (no draw) final responses of HTTP/1.1 servers are chunked now and then
+    if !followed && !old && n.url.len() % 2 == 0 && !body.is_empty() {
+        let cut = body.len() / 2;
+        head.push_str(&format!("Transfer-Encoding: chunked\r\n\r\n{:x}\r\n{}\r\n{:X};x=y\r\n{}\r\n0\r\n\r\n", cut, &body[..cut], body.len() - cut, &body[cut..]));
+        let mut s = Script::default();
+        s.acts.push(Act::Send(head.into_bytes()));
+        s.acts.push(Act::Fin);
+        return s;
+    }
     match (n.body_flaw, followed) {
         (1, true) => head.push_str(&format!("Content-Length: {}\r\n\r\n{}", body.len() + 120, body)),
         (2, true) => head.push_str(&format!("Content-Encoding: gzip\r\nContent-Length: {}\r\n\r\n{}", body.len(), body)),
@@ -256,7 +289,7 @@ pub fn install_graph(sim: &Sim, gr: &Graph, seen: &Arc<Mutex<Seen>>) {
                                 }
                             };
                             match nodes.iter().find(|n| n.url == url) {
-                                Some(n) => node_response(n),
+                                Some(n) => node_response_to(n, r.method == "HEAD"),
                                 None => {
                                     let mut s = Script::default();
                                     s.acts.push(Act::Send(b"HTTP/1.1 418 Unknown Node\r\nContent-Length: 0\r\n\r\n".to_vec()));
@@ -446,6 +479,11 @@ pub fn scenario(g: &mut G, ctx: &RunCtx) -> RunReport {
     };
     let (follow, eff_max) = eff(&prog);
     let prog2 = prog.clone();
+    // (no draw) the chain is walked with HEAD now and then: same hops, same final URL, no body
+    let head_method = (gr.nodes.len() + gr.nodes[0].url.len()) % 4 == 1;
+    if head_method {
+        g.probe("redirect-chain-walked-with-HEAD");
+    }
     // drawn last: recorded tapes keep their meaning
     if g.chance(1, 40) {
         return long_chain_family(g, ctx);
@@ -461,7 +499,12 @@ pub fn scenario(g: &mut G, ctx: &RunCtx) -> RunReport {
                 }
             }
         }
-        let mut rb = if prog2.iter().any(|(s, _)| *s) { session.get(&url0) } else { attohttpc::get(&url0) };
+        let mut rb = match (prog2.iter().any(|(s, _)| *s), head_method) {
+            (true, false) => session.get(&url0),
+            (true, true) => session.head(&url0),
+            (false, false) => attohttpc::get(&url0),
+            (false, true) => attohttpc::head(&url0),
+        };
         for (on_session, op) in &prog2 {
             if !*on_session {
                 rb = match op {
@@ -471,7 +514,12 @@ pub fn scenario(g: &mut G, ctx: &RunCtx) -> RunReport {
             }
         }
         match rb.send() {
-            Ok(r) => Ok((r.status().as_u16(), r.url().to_string())),
+            Ok(r) => {
+                let (st, url) = (r.status().as_u16(), r.url().to_string());
+                // the final response is well-formed: its body is what that node's server sent
+                let body = r.text_utf8().unwrap_or_else(|e| format!("<{}>", err_kind(&e)));
+                Ok((st, url, body))
+            }
             Err(e) => Err(err_kind(&e)),
         }
     });
@@ -548,12 +596,15 @@ pub fn scenario(g: &mut G, ctx: &RunCtx) -> RunReport {
                 )
             } else {
                 match (res, &want) {
-                    (Ok((st, url)), Outcome::Ok { status, url: wurl }) => {
+                    (Ok((st, url, body)), Outcome::Ok { status, url: wurl }) => {
                         let got_url = canon(url);
+                        let want_body = if head_method { String::new() } else { gr.nodes.iter().find(|n| &n.url == wurl).map(node_body).unwrap_or_default() };
                         if st != status {
                             violation("final-status", format!("status {} != {}", st, status))
                         } else if &got_url != wurl {
                             violation("final-url", format!("Response::url() {:?} but the response was fetched from {:?}", url, wurl))
+                        } else if *body != want_body && gr.nodes.iter().find(|n| &n.url == wurl).map(|n| n.body_flaw == 0).unwrap_or(true) {
+                            violation("final-body", format!("the final response's body read as {:?}, its server sent {:?} (chain {:?})", body, want_body, gr.nodes.iter().map(|n| (n.status, n.form)).collect::<Vec<_>>()))
                         } else {
                             Verdict::Pass
                         }
@@ -565,7 +616,7 @@ pub fn scenario(g: &mut G, ctx: &RunCtx) -> RunReport {
                             violation(format!("wrong-error:{}", k), format!("send() failed with {}, expected one of {:?}", k, kinds))
                         }
                     }
-                    (Ok((st, url)), Outcome::Err(kinds)) => violation(
+                    (Ok((st, url, _)), Outcome::Err(kinds)) => violation(
                         format!("redirect-error-swallowed:{}", gr.nodes.last().map(|n| n.form).unwrap_or("")),
                         format!("send() returned Ok({}, {}) but {:?} was expected (max={}, chain {:?})", st, url, kinds, eff_max, gr.nodes.iter().map(|n| (n.status, n.form)).collect::<Vec<_>>()),
                     ),
